@@ -83,6 +83,25 @@ class Ctx:
                                     f"(the rule would pass vacuously)")
 
 
+def _interpreted() -> set:
+    from .absint import INTERPRETED
+    return INTERPRETED
+
+
+def _exists(p: Any, name: str) -> bool:
+    """a listed anchor is reported only while it names something in the analysed tree"""
+    if "." not in name or " " in name or "/" in name:
+        return True
+    cls, _, meth = name.partition(".")
+    try:
+        c = p.find_class(cls)
+    except Exception:
+        return True
+    if c is None:
+        return True
+    return c.find_method(meth.split(".")[0]) is not None
+
+
 def load_known() -> List[Dict[str, Any]]:
     f = VERIF / "known_findings.json"
     if not f.exists():
@@ -121,7 +140,8 @@ def finish(ctx: Ctx, t0: float, error: Optional[str] = None) -> int:
             if obligations >= 2 else obligations,
             "rule": "one evaluation = one rule instance (rule id, construct it judged) decided on the current source",
             "rule_instance_counts": ctx.counts,
-            "analysed": ctx.analysed,
+            "analysed": [n for n in ctx.analysed if ctx.p is None or _exists(ctx.p, n)],
+            "functions_interpreted": sorted(_interpreted()),
             "samples": samples or [{"note": "no instance"}],
             "exhaustive": True,
             "findings": [f.as_dict() for f in ctx.findings],
